@@ -7,8 +7,7 @@ LIBS = ["FsLemmas.vo", "VtmfVerLemmas.vo"]
 GROUPS = ["rec", "vtmf", "cutchoose", "groth", "hoogh", "pedersen", "qr"]
 # every proof system the grid must have exercised (an honest accepted transcript found and mutated)
 EXPECTED = ["keynizk", "keyint", "keypc", "mask", "remask", "decrypt", "or", "maskcard", "cardsecret", "cutchoose", "cutchoose_cyc",
-            "groth_int", "groth_ni", "hoogh_int", "hoogh_ni", "pedersen", "qr_cutchoose", "qr_cutchoose_cyc", "qr_maskcard", "qr_cardsecret",
-            "rabinkey"]
+            "groth_int", "groth_ni", "hoogh_int", "hoogh_ni", "pedersen", "qr_cutchoose", "qr_cutchoose_cyc", "qr_maskcard", "qr_cardsecret"]
 
 def par_correspond(res, out, drv, n=14):
     """vpl.correspond, with the records spread over n driver processes (the extracted model does 256-bit
